@@ -88,7 +88,11 @@ def child_main(db, logpath, crash_at, scenario, seed, slow=False):
             return c
         problem = absx.make_problem(2, bounds=[[-5.0, 5.0]] * 2, evaluate=objective,
                                     costs=[{'name': 'f_1', 'criteria': 'minimize'}, {'name': 'f_2', 'criteria': 'minimize'}])
-        store = SqliteDataStore(problem, database_name=db)
+        # "-nts" scenarios: the non-default single-connection mode (thread_safe=False, journal OFF) -- extension X05, not C11
+        nts = scenario.endswith("-nts")
+        if nts:
+            scenario = scenario[:-4]
+        store = SqliteDataStore(problem, database_name=db, thread_safe=False) if nts else SqliteDataStore(problem, database_name=db)
         real_sync = store.sync_individual
 
         def sync_individual(ind):
